@@ -761,8 +761,9 @@ CONFIG = {
     "C10": dict(
         modules=["Mdns.Props.C10"],
         model_files="Mdns/Model/Record.lean, Mdns/Model/Cache.lean",
-        nontrivial=_c10_nontrivial,
-        extra_evidence=_c10_extra,
+        nontrivial=lambda r: (_sim_nontrivial(r) if r["op"].startswith("sim") else _c10_nontrivial(r)),
+        extra_evidence=lambda recs: dict(_c10_extra([r for r in recs if not r["op"].startswith("sim")]),
+                                         daemon_level=_sim_extra([r for r in recs if r["op"].startswith("sim")])),
         rule="ops generated from VERIF_SEED by vharness (c11.rs): `suppress mine other` for every kind of record with the "
              "responder's TTL in {120, 4500, 0, 1, 2, 3, 7, 255, 121, 4501, 60, 10, u32::MAX-1, u32::MAX} and the listed TTL in "
              "{0, 1, h-1, h, h+1, full-1, full, full+1, u32::MAX} (h = half), the other record identical / with the cache-flush "
@@ -771,21 +772,27 @@ CONFIG = {
              "`cache-seq`: caches of shared and unique PTR/SRV/TXT/A/AAAA records asked for known answers at ages 0, 1 ms, "
              "1 s +-1 ms, half-life -1/0/+1 ms, +1 s, expiry, with update_ttl applied to every listed copy as send_query_vec does. "
              "Non-trivial = suppress with equal RDATA (TTL, class, bit or owner decide) / a decodable query / a `known` "
-             "command that lists at least one answer. Distinct = distinct op lines.",
+             "command that lists at least one answer. Distinct = distinct op lines. PLUS daemon level (`sim C10`, c07.rs generate_c10): "
+             "a responder with announced services on 1-3 interfaces and 4-10 injected queries of every kind that list its records as "
+             "known answers with TTLs 59/60/61 of 120 and 2249/2250/2251 of 4500, with and without the cache-flush bit, in the owner's "
+             "spelling or another letter case; inside the responder model (exact correspondence) and judged by "
+             "MonResponder.monitorKnownAnswers (a record listed with more than half its TTL is not sent).",
         level_text="Component level. suppress_iff (with the exact meaning of `matches` and of the integer half), its soundness for all "
                    "records, the querier's known_iff and the written-TTL bounds (no underflow under the half-life guard) are Lean "
                    "theorems for all records and caches; the model is compared with suppressed_by_answer / suppressed_by / "
                    "get_known_answers / update_ttl of the working tree on every run and the property's clauses are evaluated on "
                    "the real answers. The full responder statement is false of the code (witness theorem D18_witness) and is kept "
-                   "as C10_responder_full with suppress_partial proved; the daemon-level clauses (other matching records still "
-                   "answered, query sent on every interface) are not covered at this level.",
+                   "as C10_responder_full with suppress_partial proved. Daemon level (responder side): `sim C10` histories are inside the "
+                   "responder model (handle_query with its fold over the known answers: exact correspondence) and the suppression "
+                   "clause is evaluated on the real packets; the querier side (known answers listed in queries, per interface) is "
+                   "covered by the client model's correspondence under C03-C05.",
         level_note="Trusted: Lean kernel; axioms propext, Classical.choice, Quot.sound only; hand-written model tied to the code by "
                    "differential testing of this run's inputs. Partial: suppress_partial needs equal cache-flush bits and "
                    "(addresses) equal interface - defect D18; handle_query / send_query_vec are not modelled here.",
         partial=["suppress_partial: hypothesis mine.flush = other.flush and same interface for addresses (defect D18: "
                  "suppressed_by_answer uses `matches`, which compares the cache-flush bit and the interface)"],
         assumptions=[
-            "component level: the fold over the answers in handle_query and the per-interface sending of send_query_vec are not part of this check",
+            "daemon level judged only in iterations that read exactly one datagram and made no API call",
             "times below 2^62 ms (no u64 wrap); TTLs are u32",
             "lower-casing of host names is modelled on ASCII only; generated names are ASCII",
             "the exact half-life millisecond (now = created + 500*ttl) and a listed TTL of exactly half are not pinned by the statement (masked in the monitor)",
